@@ -24,6 +24,7 @@ type CfgOpt struct {
 	Kind string   `json:"kind"` // file | add | set
 	Lk   string   `json:"lk"`   // file | raw | args
 	Keys []string `json:"keys"`
+	Val  int      `json:"val"` // marker value this source supplies for each of its keys (markers may repeat)
 }
 type CfgScenario struct {
 	ID   string   `json:"id"`
@@ -65,17 +66,17 @@ func runConfig(sc *CfgScenario, dir string) map[string]any {
 		switch o.Lk {
 		case "file":
 			fn := filepath.Join(dir, fmt.Sprintf("%s-%d.yaml", sc.ID, i+1))
-			_ = os.WriteFile(fn, docFor(i+1, o.Keys, true), 0o644)
+			_ = os.WriteFile(fn, docFor(o.Val, o.Keys, true), 0o644)
 			ops = append(ops, app.SetConfig(fn))
 			continue
 		case "args":
 			var args []string
 			for _, k := range o.Keys {
-				args = append(args, fmt.Sprintf("--app.config=root.%s=%d", k, i+1))
+				args = append(args, fmt.Sprintf("--app.config=root.%s=%d", k, o.Val))
 			}
 			ld = loader.NewArgsLoader(args)
 		default:
-			ld = loader.NewRawLoader(docFor(i+1, o.Keys, true))
+			ld = loader.NewRawLoader(docFor(o.Val, o.Keys, true))
 		}
 		if o.Kind == "set" {
 			ops = append(ops, app.SetConfigLoader(ld))
@@ -118,7 +119,7 @@ func runConfig(sc *CfgScenario, dir string) map[string]any {
 		if keys == nil {
 			keys = []string{}
 		}
-		optsOut[i] = map[string]any{"kind": o.Kind, "lk": o.Lk, "keys": keys}
+		optsOut[i] = map[string]any{"kind": o.Kind, "lk": o.Lk, "keys": keys, "val": o.Val}
 	}
 	return map[string]any{"id": sc.ID, "opts": optsOut, "eff": eff, "bound": bound, "ok": ok, "panic": panicked}
 }
